@@ -245,6 +245,15 @@ func genTreeInput(rng *rand.Rand, stratum string) treeInput {
 	for _, cd := range childDefs {
 		addDeps(cd, rng.Intn(3), &gcDefs, "g", "gal", false)
 	}
+	// three levels of subcharts below the root (four charts deep) in about a third of the trees
+	ggDefs := []*chartDef{}
+	if rng.Intn(3) == 0 {
+		for _, gd := range gcDefs {
+			if rng.Intn(100) < 60 {
+				addDeps(gd, 1, &ggDefs, "h", "hal", false)
+			}
+		}
+	}
 	note := ""
 	if stratum == "unlisted" {
 		// unlisted subcharts: present in charts/ but not in Chart.yaml
